@@ -254,6 +254,47 @@ def job_inject(P, taps, Wb, nsb, npol, nant, bits, nc, n_in, bpf, directio, n_re
     return recs
 
 
+def job_two_recordings(first_digitize):
+    """the gain of a recording does not depend on an earlier recording made with the other digitiser setting"""
+    recs = []
+    tag = f"C14:two-recordings:{first_digitize}"
+    P, taps, Wb, npol, nant, bits, nc = 4, 2, 2, 2, 1, 8, 2
+    fs = MemFS()
+    block_size, inbytes, pre = make_input(fs, '/mem/in', P, taps, Wb, npol, nant, bits, nc, 2, 2, None)
+    glob_stub = type('G', (), {'glob': staticmethod(lambda pat: fs.glob(pat))})
+    sig_r, sig_i = Sym(z3.Real('chan_std_r')), Sym(z3.Real('chan_std_i'))
+    pre += [sig_r.t > 0, sig_i.t > 0]
+    logs = {}
+
+    def run():
+        ant = C02.FakeAntenna(npol)
+        fb = PF.PolyphaseFilterbank(num_taps=taps, num_branches=P)
+        be = B.RawVoltageBackend.from_data('/mem/in', ant, digitizer=C02.UQ(), filterbank=fb, start_chan=0, num_subblocks=1)
+        for p in range(npol):
+            be.digitizer[0][p].ident = (0, p)
+            be.requantizer[0][p].ident = (0, p)
+            be.filterbank[0][p].window = npx.sarr([Sym(z3.Real(f'w_{m}')) for m in range(taps * P)])
+            be.filterbank[0][p].channelized_stds = npx.sarr([sig_r, sig_i])
+        for k, dg in enumerate((first_digitize, not first_digitize)):
+            StubCQ.log = []
+            be.record(f'/mem/out{k}', num_blocks=2, length_mode='num_blocks', header_dict={}, digitize=dg, verbose=False, load_template=False)
+            logs[k] = (dg, list(StubCQ.log), be.digitizer[0][0].target_std)
+        return be
+    with volt_patches(opener=fs.open, globber=glob_stub, extra=[(Q, dict(ComplexQuantizer=StubCQ))]):
+        leaf = core.run_single(run, pre)
+    dis = []
+    for k, (dg, log, tstd) in logs.items():
+        for e in [e for e in log if e[0] == 'stage1']:
+            f = RV(tstd if dg else 1.0)
+            dis += [e[3] != sig_r.t * f, e[4] != sig_i.t * f]
+    r, m = core.check(pre + leaf.side + [z3.Or(*dis)], timeout_ms=60000)
+    recs.append(q(tag, r, calls=len(dis) // 2))
+    if r == 'sat':
+        recs.append(cex('C14:gain:across-recordings', 'the deviation scaling the synthetic signal in a recording depends on the digitiser setting of an earlier recording on the same backend',
+                        dict(fn='two', first_digitize=first_digitize), name=tag))
+    return recs
+
+
 def nsb_eff(be):
     return be.num_subblocks
 
@@ -451,7 +492,38 @@ def replay_inject(p):
     return bool(msgs), '; '.join(msgs[:3]) or 'injection consistent'
 
 
-REPLAYS = {'inject': replay_inject}
+def replay_two(p):
+    import os
+    import shutil
+    import tempfile
+    from setigen.voltage import backend as bk, polyphase_filterbank as pf, quantization as qz, antenna as an
+    d = tempfile.mkdtemp(prefix='c14_', dir='/var/tmp')
+    try:
+        src0 = an.Antenna(sample_rate=1024.0, num_pols=2, seed=1)
+        [st.add_noise(0, 1) for st in src0.streams]
+        be0 = bk.RawVoltageBackend(src0, qz.RealQuantizer(), pf.PolyphaseFilterbank(num_taps=2, num_branches=4), qz.ComplexQuantizer(), start_chan=0, num_chans=2, block_size=2 * 2 * 4 * 16, blocks_per_file=2, num_subblocks=1)
+        be0.record(os.path.join(d, 'in'), num_blocks=2, length_mode='num_blocks', header_dict={}, verbose=False, load_template=False)
+
+        def mk():
+            src = an.Antenna(sample_rate=1024.0, num_pols=2, seed=2)
+            [st.add_signal(lambda ts: np.full(len(ts), 3.0)) for st in src.streams]
+            fb = pf.PolyphaseFilterbank(num_taps=2, num_branches=4)
+            fb.channelized_stds = np.array([0.7, 0.9])
+            return bk.RawVoltageBackend.from_data(os.path.join(d, 'in'), src, digitizer=qz.RealQuantizer(target_fwhm=8), filterbank=fb, start_chan=0, num_subblocks=1), src
+        a, sa = mk()
+        a.record(os.path.join(d, 'a1'), num_blocks=2, length_mode='num_blocks', header_dict={}, digitize=p['first_digitize'], verbose=False, load_template=False)
+        sa.set_time(0)
+        a.record(os.path.join(d, 'a2'), num_blocks=2, length_mode='num_blocks', header_dict={}, digitize=not p['first_digitize'], verbose=False, load_template=False)
+        b, sb = mk()
+        b.record(os.path.join(d, 'b2'), num_blocks=2, length_mode='num_blocks', header_dict={}, digitize=not p['first_digitize'], verbose=False, load_template=False)
+        ra, rb = open(os.path.join(d, 'a2.0000.raw'), 'rb').read(), open(os.path.join(d, 'b2.0000.raw'), 'rb').read()
+        nd = sum(1 for x, y in zip(ra, rb) if x != y)
+    finally:
+        shutil.rmtree(d, ignore_errors=True)
+    return nd > 0, f"second recording (digitize={not p['first_digitize']}) differs in {nd} bytes from the same recording on a fresh backend"
+
+
+REPLAYS = {'inject': replay_inject, 'two': replay_two}
 
 
 def main():
@@ -478,6 +550,8 @@ def main():
             jobs.append(('job_inject', (P, taps, 2, 2, 2, 1, 8, 1, n_in, bpf, directio, n_req, False)))
     for (npol, bits) in ((1, 8), (2, 8), (1, 4), (2, 4)):
         jobs.append(('job_final_stats', (4, 2, 2, npol, bits)))
+    for fd in (True, False):
+        jobs.append(('job_two_recordings', (fd,)))
     ck.bounds = dict(base=base, pols='1-2', antennas='1-2', bits='8/4', num_subblocks='1..4 on 3 windows', input='2-3 blocks in files of 1-2, DIRECTIO absent/0/1', requested='shorter, equal, longer than the input')
     ck.run_jobs('props.C14', jobs, timeout_s=1500)
     ck.finish()
